@@ -649,12 +649,22 @@ def check_c01(tier):
                      "states = placements (function address incl. in-page offset x trampoline page displacement x fake address x install kind) each run through the real x86-64 installer under the OS model; transitions = install, call, remove; the whole structured address domain listed under bound was enumerated")
 
 
+def c13_macro_abi(tier, mi):
+    """The macro level of the same question: every fake! arm is instantiated with structs passed by value
+    (12-byte all-float, 40-byte) and the generated fake must receive exactly what the caller passed (E4)."""
+    import e4
+    viols, cov = e4.c08(tier, mi, only_aggregates=True)
+    mine = [v for v in viols if "aggregates-by-value" in v["key"]]
+    return mine, {"states": cov["distinct_arms"], "transitions": cov["distinct_arms"], "macro_arms_probed_with_by_value_aggregates": cov["distinct_arms"]}
+
+
 def check_c13(tier):
     return e1_family("C13", tier, ["c01", "probe", "c15"], ("C13",), False,
                      ["trampoline:long", "trampoline:rel32", "entry:rel32"],
                      E1_ASSUME + ["ymm upper halves are probed when the host has AVX (it does); x87/MXCSR state is not probed",
                                   "AArch64: the emitted sequences of the C15 domain are judged on the A64 abstract machine (writes outside x9-x17 break argument / result-pointer / callee-saved registers); AArch32 register discipline is judged by C16"],
-                     "states = every placement of the C01 domain: the instruction sequence between caller and fake is run on the x86-64 abstract machine with a fully symbolic register file (write set, stack delta, reads of caller registers), so the verdict holds for all register and stack contents; plus host probes: an assembly caller loads 6 integer and 8 vector argument registers, 4 stack slots and the callee-saved set with walking patterns (6 rounds), an assembly fake records them, for the rel32 and the long trampoline form and a far position-independent fake")
+                     "states = every placement of the C01 domain: the instruction sequence between caller and fake is run on the x86-64 abstract machine with a fully symbolic register file (write set, stack delta, reads of caller registers), so the verdict holds for all register and stack contents; plus host probes: an assembly caller loads 6 integer and 8 vector argument registers, 4 stack slots and the callee-saved set with walking patterns (6 rounds), an assembly fake records them, for the rel32 and the long trampoline form and a far position-independent fake; plus every fake! arm instantiated with by-value aggregates (generated programs)",
+                     extra_results=c13_macro_abi)
 
 
 def c10_extra(tier, mi):
